@@ -1,7 +1,9 @@
 // e_static: dispatch (key type, configuration) -> instantiation; C01, C02, C07.
 #include "static_cfg.hpp"
 
-extern "C" int omp_get_num_procs(void) { return 64; } // let 17..20 threads give 17..20 chunks on a 16-core box
+#ifdef _OPENMP
+extern "C" int omp_get_num_procs(void) { return 64; }
+#endif // let 17..20 threads give 17..20 chunks on a 16-core box
 
 namespace vf {
 #define VF_DECL(ID) extern const StaticFn STATIC_TABLE_##ID[VF_STATIC_NCFG];
